@@ -47,3 +47,11 @@ Theorem C11_pinv_left_inverse : forall n k (M P : fmat),
   forall a j, a < k -> j < k -> sum n (fun t => (P a t * M t j)%Qc) = (if Nat.eqb a j then 1 else 0)%Qc.
 Proof. exact pinv_left_inverse. Qed.
 Print Assumptions C11_pinv_left_inverse.
+
+(* Custom: an accepted fit holds exactly the requested number of modes (the first columns of the supplied matrix), and a
+   request for more modes than the supplied matrix has columns is rejected *)
+Theorem C11_custom_fit : forall U ncols k,
+  (forall M avail, custom_fit U ncols k = Some (M, avail) -> avail = k /\ k <= ncols /\ M = cols k U) /\
+  (ncols < k -> custom_fit U ncols k = None).
+Proof. intros. split; [intros M avail; apply custom_fit_spec | apply custom_fit_reject]. Qed.
+Print Assumptions C11_custom_fit.
